@@ -341,3 +341,34 @@ Proof.
      inversion H; subst; exists bc, data, (indexed s (reg_at data) n);
      repeat split; try assumption; [apply indexed_length|intros k d Hk; now rewrite indexed_nth]).
 Qed.
+
+(* ---- round trip with the server-side encoding (Proofs/PackProofs.v) ---- *)
+From Rodbus Require Import Proofs.PackProofs.
+
+Lemma reg_at_flat_map regs : forall k, reg_at (flat_map be regs) k = nth k regs 0.
+Proof.
+  induction regs as [|v r IH]; intros k.
+  - unfold reg_at. cbn [flat_map]. rewrite !nth_overflow by (cbn [length]; lia). lia.
+  - cbn [flat_map be app]. destruct k as [|k]; [unfold reg_at; cbn [nth Nat.mul Nat.add]; lia|].
+    rewrite reg_at_shift. cbn [nth]. apply IH.
+Qed.
+
+Theorem roundtrip_bits r s bits bc : r = RReadCoils (s, len bits) \/ r = RReadDiscreteInputs (s, len bits) -> request_wf r ->
+  handle_response r (reply_fc r :: bc :: pack bits) = Ok (RespBits (indexed s (fun k => nth k bits false) (len bits))).
+Proof.
+  intros Hr Hwf. apply (ok_iff _ _ _ Hwf).
+  destruct Hr as [-> | ->]; cbn [ref_reply reply_fc]; rewrite N.eqb_refl, pack_length, N.eqb_refl; cbn [andb];
+    do 2 f_equal; unfold indexed; apply map_ext; intros k; f_equal; apply pack_bit.
+Qed.
+
+Lemma len_flat_map_be regs : len (flat_map be regs) = 2 * len regs.
+Proof. unfold len. induction regs as [|v rs IH]; [reflexivity|]. cbn [flat_map]. rewrite app_length. cbn [be length]. lia. Qed.
+
+Theorem roundtrip_registers r s regs bc : r = RReadHoldingRegisters (s, len regs) \/ r = RReadInputRegisters (s, len regs) -> request_wf r ->
+  handle_response r (reply_fc r :: bc :: flat_map be regs) = Ok (RespRegisters (indexed s (fun k => nth k regs 0) (len regs))).
+Proof.
+  intros Hr Hwf. apply (ok_iff _ _ _ Hwf).
+  pose proof (len_flat_map_be regs) as Hl.
+  destruct Hr as [-> | ->]; cbn [ref_reply reply_fc]; rewrite N.eqb_refl, Hl, N.eqb_refl; cbn [andb];
+    do 2 f_equal; unfold indexed; apply map_ext; intros k; f_equal; apply reg_at_flat_map.
+Qed.
